@@ -636,3 +636,11 @@ func Decode(d []byte) (*Image, *Info, error) {
 		}
 	}
 }
+
+// Code returns the code word and its length for symbol v.
+func (t *Table) Code(v int) (code, size int, ok bool) {
+	if !t.Has(v) {
+		return 0, 0, false
+	}
+	return t.ecode[v], t.esize[v], true
+}
